@@ -2,7 +2,7 @@
   C12 — Restart recovery rebuilds the same accounting.
   The core keeps no state.  `Core.replay` (YkModel/Recover.lean) is the rebuilt state after the shim replayed a list of
   items on a restarted core `Core.fresh qs` (`qs` = the queue tree of the restarted core, any configuration): nodes
-  (`Core.nodeCreate`), applications after placement (`Core.appAdd` = partition.AddApplication), bound allocations
+  (`Core.nodeCreate`), applications after placement (`Core.appSub` = partition.AddApplication), bound allocations
   (`Core.recAlloc` = the "new allocation already assigned" branch of partition.UpdateAllocation: IncAllocatedResource
   without limit, Node.AddAllocation forced, RecoverAllocationAsk, AddAllocation), foreign allocations, outstanding asks.
   `replay` also returns the items the core accepted.  The driver replays on this model what the harness replayed on a
@@ -128,12 +128,12 @@ theorem illegal_order_refused :
     leaf — whatever it asks for as task groups, whatever the queue maxima and the sort policy are (partition.AddApplication
     skips the task-group checks for a forced application; repaired by the fix recorded in KNOWN_FINDINGS `fixed:`). -/
 theorem forced_app_accepted (s : Core) (a : RApp) (q : CQueue) (hf : a.forced = true) (hn : s.findApp a.id = none)
-    (hq : s.findQueue a.queue = some q) (hl : q.leaf = true) : (s.appAdd a).2 = true :=
+    (hq : s.findQueue a.queue = some q) (hl : q.leaf = true) : (s.appSub a).2 = true :=
   appAdd_accepts s a q hn hq hl (Or.inl hf)
 
 /-- … and so is an application that is not forced and carries no task-group request. -/
 theorem plain_app_accepted (s : Core) (a : RApp) (q : CQueue) (hn : s.findApp a.id = none)
-    (hq : s.findQueue a.queue = some q) (hl : q.leaf = true) (hg : isZero (some a.phAsk) = true) : (s.appAdd a).2 = true :=
+    (hq : s.findQueue a.queue = some q) (hl : q.leaf = true) (hg : isZero (some a.phAsk) = true) : (s.appSub a).2 = true :=
   appAdd_accepts s a q hn hq hl (Or.inr hg)
 
 /-- the former witness: queue root.a with max {cpu:1}; a running gang application that asked for {cpu:2} of placeholders -/
@@ -146,14 +146,14 @@ def exGang : RApp := { id := "app-1", queue := "root.a", user := "bob", phAsk :=
 
 /-- regression (was the refutation of the unrepaired code): the forced gang application is accepted over the queue maximum,
     also in a queue that does not sort FIFO … -/
-example : ((Core.fresh exTree).appAdd exGang).2 = true := by decide
-example : ((Core.fresh exTree).appAdd { exGang with fifo := false }).2 = true := by decide
+example : ((Core.fresh exTree).appSub exGang).2 = true := by decide
+example : ((Core.fresh exTree).appSub { exGang with fifo := false }).2 = true := by decide
 /-- … its bound placeholder is accepted with it … -/
 example :
     ((Core.fresh exTree).replay [.node "n1" [("cpu", 4)] true, .app exGang,
         .alloc { app := "app-1", key := "p1", node := "n1", res := [("cpu", 2)], ph := true, tg := "tg", reqNode := "" }]).2.length = 3 := by decide
 /-- … while the same submission WITHOUT the force-create tag is still refused (the task-group checks remain for new work). -/
-example : ((Core.fresh exTree).appAdd { exGang with forced := false }).2 = false := by decide
+example : ((Core.fresh exTree).appSub { exGang with forced := false }).2 = false := by decide
 
 /-- **Old core and restarted core agree, per application.**  `A` = the old core with balanced books (C03); the shim
     replayed — in any legal order (`LegalFrom`) — exactly the bound allocations (`snapAllocs A`) and the asks it
